@@ -75,7 +75,8 @@ Qed.
 Lemma gate_client (w : whois) c (q : apireq V) empty : identity true w = Some c -> endpoint_of q = EGet ->
   gate (client_request w q empty) = Accept c q.
 Proof.
-  intros I E. unfold gate, client_request. cbn [rq_meth rq_ctype rq_hdr rq_addr_ok rq_whois rq_endpoint rq_body rq_empty].
+  intros I E. unfold gate, client_request. cbn [rq_endpoint is_api]. unfold api_gate.
+  cbn [rq_meth rq_ctype rq_hdr rq_addr_ok rq_whois rq_endpoint rq_body rq_empty].
   rewrite I. unfold decode. rewrite E. reflexivity.
 Qed.
 
